@@ -16,7 +16,7 @@ variable {α : Type} [Field α] [LinearOrder α] [IsStrictOrderedRing α]
 /-- the sorted column is a permutation of the column, in non-decreasing order -/
 theorem sortAsc_perm_sorted (xs : List α) :
     (sortAsc xs).Perm xs ∧ (sortAsc xs).Pairwise (· ≤ ·) := by
-  sorry
+  exact ⟨sortAsc_perm xs, sortAsc_sorted xs⟩
 
 /-- ROBUSTNESS of the trimmed mean of one column.  `good[i]` marks the untouched rows; at most `b`
     rows are corrupted (arbitrary values); `m ≥ 2b+1`.  If all untouched entries lie in `[lo, hi]`, so does
@@ -27,7 +27,7 @@ theorem trimmedMeanCol_robust (b : Nat) (column : List α) (good : List Bool) (l
     (hrange : ∀ i, i < column.length → good.getD i false = true →
         lo ≤ column.getD i 0 ∧ column.getD i 0 ≤ hi) :
     lo ≤ trimmedMeanCol b column ∧ trimmedMeanCol b column ≤ hi := by
-  sorry
+  exact trimmedMeanCol_robust' b column good lo hi hlen hm hbad hrange
 
 /-- the matrix version: every output coordinate stays between the minimum and maximum of the untouched
     rows' entries of that column -/
@@ -37,22 +37,22 @@ theorem trimmedMean_robust [Inhabited α] (b m n : Nat) (J : Mat α) (hJ : MatWF
     (hrange : ∀ i, i < m → good.getD i false = true →
         lo ≤ (J.getD i []).getD c 0 ∧ (J.getD i []).getD c 0 ≤ hi) :
     lo ≤ (trimmedMean b n J).getD c 0 ∧ (trimmedMean b n J).getD c 0 ≤ hi := by
-  sorry
+  exact trimmedMean_robust' b m n J hJ good hlen hm hbad c hc lo hi hrange
 
 /-- the trimmed mean of a column does not depend on the order of its entries (C10 for TrimmedMean) -/
 theorem trimmedMeanCol_perm (b : Nat) (c₁ c₂ : List α) (h : c₁.Perm c₂) :
     trimmedMeanCol b c₁ = trimmedMeanCol b c₂ := by
-  sorry
+  exact trimmedMeanCol_perm' b h
 
 /-- with `b = 0` it is the plain mean -/
 theorem trimmedMeanCol_zero (column : List α) :
     trimmedMeanCol 0 column = column.sum / (column.length : α) := by
-  sorry
+  exact trimmedMeanCol_zero' column
 
 /-- too few rows are rejected: exactly when `m < 2b + 1` (for finite 2-d input) -/
 theorem trimmed_rejects_iff (b m n : Nat) :
     rejects (.trimmedMean b) [m, n] true = true ↔ m < 2 * b + 1 := by
-  sorry
+  simp [rejects]
 
 /-! ### Krum -/
 
@@ -61,14 +61,16 @@ theorem krum_average_of_k_rows (D : Mat α) (f k : Nat) (hk : 1 ≤ k) (hkm : k 
     ∃ sel : List Nat, sel.Nodup ∧ sel.length = k ∧ (∀ i ∈ sel, i < D.length) ∧
       (krumWeights D f k).1 =
         (List.range D.length).map fun i => if i ∈ sel then (1 : α) / (k : α) else 0 := by
-  sorry
+  have _ := hk  -- hypothesis not needed
+  exact krum_average' D f k hkm
 
 /-- … namely rows with the smallest scores: every selected row scores no more than every other row -/
 theorem krum_selects_lowest_scores (D : Mat α) (f k : Nat) (hk : 1 ≤ k) (hkm : k ≤ D.length)
     (i j : Nat) (hi : i < D.length) (hj : j < D.length)
     (hsel : (krumWeights D f k).1.getD i 0 ≠ 0) (hnot : (krumWeights D f k).1.getD j 0 = 0) :
     (krumScores D f).getD i 0 ≤ (krumScores D f).getD j 0 := by
-  sorry
+  have _ := hkm  -- hypothesis not needed
+  exact krum_selects' D f k hk i j hi hj hsel hnot
 
 /-- the score of a row is the sum of its `m - f - 2` smallest distances to OTHER rows (the zero
     self-distance is the one dropped), when distances are non-negative with zero diagonal -/
@@ -77,11 +79,12 @@ theorem krum_neighbourhood (D : Mat α) (f : Nat) (i : Nat) (hi : i < D.length)
     (hdiag : (D.getD i []).getD i 0 = 0) (hf : f + 3 ≤ D.length) :
     (krumScores D f).getD i 0 =
       (smallest (D.length - f - 2) ((D.getD i []).eraseIdx i)).sum := by
-  sorry
+  have _ := hf  -- hypothesis not needed
+  exact krum_neighbourhood' D f i hi hrow hnn hdiag
 
 /-- too few rows are rejected: exactly when `m < f + 3` or `m < k` -/
 theorem krum_rejects_iff (f k m n : Nat) :
     rejects (.krum f k) [m, n] true = true ↔ (m < f + 3 ∨ m < k) := by
-  sorry
+  simp [rejects]
 
 end Tjd.Props.C16
